@@ -25,3 +25,9 @@ pub broadcast group angle_axioms { ax_pi_bounds, ax_rem, ax_atan2_range }
 // "denotes the same direction": x and y differ by an integer number of turns
 pub open spec fn cong_k(x: real, y: real, k: int) -> bool { x - y == (k as real) * two_pi() }
 pub open spec fn congruent(x: real, y: real) -> bool { exists|k: int| #[trigger] cong_k(x, y, k) }
+
+// stand-in for nalgebra Vector2<f64> (field access v.x / v.y through Deref in the real type)
+pub struct Vector2 { pub x: f64, pub y: f64 }
+pub broadcast axiom fn ax_f64_field_Vector2_x(s: Vector2) ensures #[trigger] s.x == f64_typed(s, 0);
+pub broadcast axiom fn ax_f64_field_Vector2_y(s: Vector2) ensures #[trigger] s.y == f64_typed(s, 1);
+pub broadcast group vector2_fields { ax_f64_field_Vector2_x, ax_f64_field_Vector2_y }
